@@ -90,6 +90,15 @@ Theorem c04_flat_calls_follow_the_transclusion_rule :
 Proof. exact flat_page. Qed.
 Print Assumptions c04_flat_calls_follow_the_transclusion_rule.
 
+(* ... and a page of text and any number of such calls: the text stays, every call is replaced by the rule's result *)
+Theorem c04_pages_of_flat_calls_follow_the_transclusion_rule :
+  forall pfnames lib opts nwmap page,
+    forallb (flat_item pfnames lib) page = true -> o_tfn opts = [] -> o_pfn opts = [] ->
+    exists F, forall fuel, (F <= fuel)%nat ->
+      expand_page pfnames nwmap lib opts false fuel page = Some (codes (page_result lib page)).
+Proof. exact flat_pages. Qed.
+Print Assumptions c04_pages_of_flat_calls_follow_the_transclusion_rule.
+
 Theorem c04_flat_rule_is_mediawikis_without_trailing_line_breaks :
   forall lib name args t, find_tpl lib name = Some t -> no_trailing_nl (bind_args args 1 []) = true ->
     result_of lib name args = mw_result_of lib name args.
